@@ -2,6 +2,18 @@
 
 package desync
 
+import "os"
+
 // verifYield marks a point the verification harness can observe and gate (build tag verif). Without the
 // tag it does nothing.
 func verifYield(point string, kv ...interface{}) {}
+
+// Overrides consulted by CanClone / CloneRange; always nil without the build tag.
+var (
+	VerifCanClone   func(dstFile, srcFile string) bool
+	VerifCloneRange func(dst, src *os.File, srcOffset, srcLength, dstOffset uint64) error
+)
+
+func verifPlan(attempt int, plan Plan) {}
+
+func verifSeedIndex(s *FileSeed) {}
